@@ -66,6 +66,23 @@ func fcReplay0(b *fcBeh) string {
 			if bad != "" {
 				return fmt.Sprintf("action %d: %s", i, bad)
 			}
+		case "swap", "copyBW":
+			via := first
+			if a[1].(string) == "last" {
+				via = last
+			}
+			if via == nil {
+				get()
+				via = last
+			}
+			if bad != "" {
+				return fmt.Sprintf("action %d: %s", i, bad)
+			}
+			tw, tb := *via[0].Value, *via[1].Value
+			*via[0].Value = tb
+			if a[0].(string) == "swap" {
+				*via[1].Value = tw
+			}
 		case "scribble":
 			if raw == nil {
 				get()
